@@ -1,15 +1,19 @@
 --------------------------- MODULE TextScreen_Sim ---------------------------
-(* Behaviour generator (spec -> code) at the REAL screen size: TLC -simulate
-   walks the reference model, choosing at every step one statement from a
+(* Behaviour generator (spec -> code) at the REAL screen size: TLC walks the
+   reference model (N independent random walks of D statements, RandomElement), choosing at every step one statement from a
    boundary-dense catalogue computed from the current model state (strings that
    end one before / at / one past the right margin and the end of the window,
    LOCATE to the corners and just outside, every kind of window, width and
    mode switches).  Each finished behaviour is printed as JSON and replayed on
    the real interpreter; TextScreen_Trace then validates it step by step.     *)
-EXTENDS TextScreen, TLC, Json
-CONSTANTS W, H, D, Modes
-VARIABLES st, hist
-vars == <<st, hist>>
+EXTENDS TextScreen, TLC, Json, FiniteSets, SequencesExt
+CONSTANTS W, H, D, Modes,
+          N,       \* number of behaviours (one per initial state; run in ordinary BFS mode, 1 worker)
+          Seed     \* the walks are a deterministic function of Seed (small linear congruential generator)
+VARIABLES st, hist, rnd
+vars == <<st, hist, rnd>>
+Lcg(x) == (x * 75 + 74) % 65537
+Pick(S, x) == SetToSeq(S)[1 + ((x \div 5) % Cardinality(S))]
 
 Pat(k, base) == [i \in 1..k |-> base + (i % 7)]
 Clip(S) == S \cap 1..255
@@ -32,16 +36,18 @@ Actions(s) ==
     \cup {[op |-> "width", n |-> x, fresh |-> x # s.w, nw |-> x, nmode |-> IF s.mode = 0 THEN 0 ELSE IF x = 40 THEN 1 ELSE 2] : x \in TextWidths}
     \cup {[op |-> "screen", m |-> m, fresh |-> m # s.mode, nw |-> ModeW(m, s.w), nmode |-> m] : m \in Modes}
 
-\* weight the kinds of statement (printing most); the argument keeps TLC from folding the choice into a constant
+\* weight the kinds of statement (printing most)
 Kinds == <<"print", "print", "print", "print", "print", "locate", "locate", "cls", "viewprint", "viewprint", "width", "screen">>
-Kind(k) == Kinds[RandomElement(1..(Len(Kinds) + k - k))]
-Init == st = Fresh(W, H, 0) /\ hist = <<>>
-\* (the random choices are bound by \E over singleton sets so that each is evaluated exactly once)
+Init == st = Fresh(W, H, 0) /\ hist = <<>> /\ rnd \in {Lcg(Lcg((Seed * 7919 + i * 4999) % 65537)) : i \in 1..N}
 Next == /\ Len(hist) < D
-        /\ \E k \in {Kind(Len(hist))} : \E a \in {RandomElement({x \in Actions(st) : x.op = k})} :
-             LET ok == RefOk(st, a)
-             IN  /\ st' = IF ok THEN Effect(st, a) ELSE st
-                 /\ hist' = Append(hist, a @@ [done |-> ok])
+        /\ LET r1 == Lcg(rnd)
+               r2 == Lcg(r1)
+               k  == Kinds[1 + ((r1 \div 5) % Len(Kinds))]
+               a  == Pick({x \in Actions(st) : x.op = k}, r2)
+               ok == RefOk(st, a)
+           IN  /\ st' = IF ok THEN Effect(st, a) ELSE st
+               /\ hist' = Append(hist, a @@ [done |-> ok])
+               /\ rnd' = r2
 Spec == Init /\ [][Next]_vars
 Emit == (Len(hist) = D) => PrintT(<<"BEHAVIOUR", ToJson(hist)>>)
 =============================================================================
